@@ -423,14 +423,17 @@ def lazy_taint(prog, f, dask_only=True, module_param=None):
                           for x in ast.walk(v))
             if is_red or has_red:
                 lazy.add(name)
-                reds.append(s)
+                # one site per reduction (two reductions named separately or written in one expression count alike)
+                rc_ = [x for x in ast.walk(v) if isinstance(x, ast.Call) and short(x) in REDUCERS and x.args and isinstance(x.func, ast.Attribute) and
+                       norm(x.func.value) in ('da', 'np', 'numpy', 'dask.array', module_param or 'da')]
+                reds.extend(rc_ or [s])
             elif mentions_lazy(v) and not (isinstance(v, ast.Call) and short(v) in ('compute',)):
                 lazy.add(name)
         elif isinstance(s, ast.Return) and s.value is not None:
             # a reduction used directly in the returned expression is still a (lazy) global reduction site
-            if any(isinstance(x, ast.Call) and short(x) in REDUCERS and x.args and isinstance(x.func, ast.Attribute) and
-                   norm(x.func.value) in ('da', 'np', 'numpy', 'dask.array', module_param or 'da') for x in ast.walk(s.value)):
-                reds.append(s)
+            rc_ = [x for x in ast.walk(s.value) if isinstance(x, ast.Call) and short(x) in REDUCERS and x.args and isinstance(x.func, ast.Attribute) and
+                   norm(x.func.value) in ('da', 'np', 'numpy', 'dask.array', module_param or 'da')]
+            reds.extend(rc_)
         # sinks
         for c in [x for x in ast.walk(s) if isinstance(x, ast.Call)]:
             if pm.get(c) is not None and under_non_dask_branch(c):
